@@ -32,6 +32,8 @@ func main() {
 		}
 		e := newEmitter(*out, *prop, *seed)
 		g(e, *tier)
+		genWide(e, *prop, *tier)
+		genScale(e, *prop, *tier)
 		e.close()
 		fmt.Printf("cases=%d\n", e.n)
 	case "replay":
